@@ -845,8 +845,8 @@ class PGMCompiler:
             x, y, z = self.compensate(x, y, z)
 
         # translate points to new origin
-        x -= self.shift_origin[0]
-        y -= self.shift_origin[1]
+        x = x - self.shift_origin[0]
+        y = y - self.shift_origin[1]
 
         # flip x, y coordinates
         x, y = self.flip(x, y)
